@@ -146,6 +146,14 @@ func init() {
 			RealStub: "real: util.CheckFilePermissionsForExecution, util.SafeCmdExecution, sensors.CmdSensor, fans.CmdFan, configuration.Validate, real chown/chmod/symlink and real child processes; c18loop adds the L1 simulator (clock, scheduler) around them",
 		},
 		PropertyPlan{
+			ID: "C19", Level: "fault_enumeration",
+			Families: []FamilyPlan{{Name: "c19sim", Quick: 96, Thorough: 1600, Chunk: 4, SeedTimeout: 150 * time.Second, DeathProperty: "C19"}, {Name: "rt.c19", Quick: 64, Thorough: 256, Chunk: 1, SeedTimeout: 60 * time.Second, DeathProperty: "C19"}},
+			Rule:     "c19sim: the command faults of the C09 enumeration (exit!=0 with/without output, garbage, nan, empty, injected timeout, not executable, bad format, vanished between permission check and start, killed) x 27 backend/curve combinations x positions, injected into the running daemon under the simulator: no panic, the loop continues or the fan is restored. rt.c19: util.SafeCmdExecution on the REAL clock, 16 failure modes (ok, trailing newlines, exit 3 with output, silent exit 1, killed by signal, not executable, bad format, missing, sleeper 3x timeout, sleeper ignoring SIGTERM, grandchild holding stdout for 3x timeout, grandchild + sleeper, empty / garbage / 3 MB output, 2 MB stderr) x timeouts {0.2, 0.5, 1, 2 s} = 64 cases enumerated by seed: returns within timeout + 1.5 s with an error or the trimmed output. distinct = scenario hash; quick covers all 64 real-time cases once",
+			Probes:   []string{"calls-judged", "faults-fired"},
+			Assume:   []string{"the time bound is decided on the real clock with a 1.5 s margin (stated limit of the technique: a simulated deadline cannot fire while a real child runs)", "rt cases run 16 at a time; the margin absorbs scheduling noise"},
+			RealStub: "real: util.SafeCmdExecution, os/exec, real child and grandchild processes, real clock (rt.c19); c19sim: as C09",
+		},
+		PropertyPlan{
 			ID: "C12", Level: "exploration",
 			Families: []FamilyPlan{{Name: "c12", Quick: 240, Thorough: 8000, Chunk: 10}},
 			Rule:     "each run = closed loop with full-range fans (min 0, max 255) and the direct algorithm, where the request equals the curve value; maps from the configuration (sparse, plateaus) or from the real sweep against a quantising driver; every cycle compares the write (or the decision not to write) with the reference nearest-supported-input computation. distinct = scenario hash; non-trivial = at least one write judged",
